@@ -60,7 +60,23 @@ package parsepasses
 //@   at call panic#0 assert[only-unbound-keys-are-rejected;C07] !ok
 //@   ensures[returns-only-for-bound-keys;C07] ok
 //@   ensures[keeps-loop-variables;C07] sameslice(tc.forVars, old(tc.forVars))
-//@   ensures[records-the-use;C07] len(tc.usedKeys) == old(len(tc.usedKeys)) + 1 && tc.usedKeys[len(tc.usedKeys)-1] == key
+//@   ghost byloop bool = false
+//@   at call (*templateChecker).boundByLoop#0 assert[asked-about-the-key-being-read;C07] arg0 == tc && same(arg1, key)
+//@   at call (*templateChecker).boundByLoop#0 after set byloop = res
+//@   ensures[records-the-use-unless-a-loop-variable-is-what-is-read;C07] ite(byloop, len(tc.usedKeys) == old(len(tc.usedKeys)), len(tc.usedKeys) == old(len(tc.usedKeys)) + 1 && tc.usedKeys[len(tc.usedKeys)-1] == key)
+
+// a reference is a use of a loop variable - and so no use of a param or let of
+// the same name outside the loop - only if some enclosing loop has that name
+// (and no {let} inside the innermost such loop shadows it: not stated here).
+//@ func (*templateChecker).boundByLoop
+//@   props C07
+//@   nosafety
+//@   pure
+//@   ensures[only-a-name-that-an-enclosing-loop-binds-is-a-loop-variable;C07] result ==> exists(i, 0, len(tc.forVars), tc.forVars[i] == key)
+//@   loop 0
+//@     noterm
+//@   loop 1
+//@     noterm
 
 //@ func (*templateChecker).checkCall
 //@   props C07
